@@ -168,7 +168,13 @@ func Select(hasDefault bool, cases ...SelCase) int {
 		t.selDone = -1
 		t.seenEpoch = w.epoch
 		RaceReleaseMerge(unsafe.Pointer(&t.selTok))
-		Block(selWait{}, 0, "channel operation", -1)
+		reason := "channel receive"
+		if n > 1 {
+			reason = "select"
+		} else if n == 1 && cases[0].isSend() {
+			reason = "channel send"
+		}
+		Block(selWait{}, 0, reason, -1)
 		done := t.selDone
 		t.sel = nil
 		t.selDone = -1
